@@ -319,11 +319,16 @@ def blank_loaded(rec):
 
 
 def round_trip(recipe, path, via, thr, tmpdir):
+    """one observed history; None when the INPUT could not be constructed (not a round-trip outcome)"""
     md, MazeDataset, *_ = _lib()
     from zanj import ZANJ
 
-    ds = build(recipe)
-    rec = dict(kind="ds", path=path, via=via, recipe=recipe, mode=recipe["mode"], **_thr_fields(thr), **observe_member(ds))
+    try:
+        ds = build(recipe)
+        pre = observe_member(ds)
+    except Exception:  # noqa: BLE001 - input construction, see run_job
+        return None
+    rec = dict(kind="ds", path=path, via=via, recipe=recipe, mode=recipe["mode"], **_thr_fields(thr), **pre)
     stage, res, msg = "serialize", "ok", ""
     md.set_serialize_minimal_threshold(thr)
     try:
@@ -349,7 +354,7 @@ def round_trip(recipe, path, via, thr, tmpdir):
             raise TypeError(f"loaded a {type(ld).__name__}")
         loaded_member(rec, ds, ld)
         stage = ""
-    except Exception as e:  # noqa: BLE001
+    except Exception as e:  # noqa: BLE001 - any exception of the code under test is an outcome to be judged
         res, msg = "raise:" + type(e).__name__, str(e)[:160]
     finally:
         md.set_serialize_minimal_threshold(100)
@@ -360,27 +365,34 @@ def round_trip(recipe, path, via, thr, tmpdir):
 
 def coll_round_trip(recipes, via, thr, tmpdir, recipe_id):
     md, MazeDataset, MazeDatasetConfig, MazeDatasetCollection, MazeDatasetCollectionConfig, _G = _lib()
-    members = []
-    for k, rc in enumerate(recipes):
-        if rc["kind"] == "empty":
-            members.append(MazeDataset(MazeDatasetConfig(name=f"m{k}", grid_n=rc["g"], n_mazes=0), []))
-        else:
-            members.append(build(dict(rc, name=f"m{k}")))
+    try:
+        members = []
+        for k, rc in enumerate(recipes):
+            if rc["kind"] == "empty":
+                members.append(MazeDataset(MazeDatasetConfig(name=f"m{k}", grid_n=rc["g"], n_mazes=0), []))
+            else:
+                members.append(build(dict(rc, name=f"m{k}")))
+        mrecs = [dict(mode=rc.get("mode", "none"), **_thr_fields(thr), **observe_member(d)) for rc, d in zip(recipes, members)]
+    except Exception:  # noqa: BLE001 - input construction
+        return None
     # "shared": the collection config holds the members' own config objects; "copied": equal but distinct
     # config objects (what MazeDatasetCollection.generate produces: every member is generated from a copy)
     style = recipe_id.get("cfg_style", "shared")
-    mcfgs = [d.cfg if style == "shared" else MazeDatasetConfig.load(d.cfg.serialize()) for d in members]
-    ccfg = MazeDatasetCollectionConfig(name="coll", maze_dataset_configs=mcfgs, seed=recipe_id.get("cseed", 42))
     # collection-level collected metadata (constructor argument), present for every other collection
     cmeta = {"func_name": {"gen_dfs": 3, "hand_built": 1}, "start_coord": {(0, 1): 2, (10, 3): 1}, "n_accessible_cells": {9: 4}, "fully_connected": {True: 4}} if recipe_id.get("k", 0) % 2 else None
-    coll = MazeDatasetCollection(ccfg, members, generation_metadata_collected=cmeta)
-    mrecs = [dict(mode=rc.get("mode", "none"), **_thr_fields(thr), **observe_member(d)) for rc, d in zip(recipes, members)]
+    cseed = recipe_id.get("cseed", 42)
     rec = dict(kind="coll", path="serialize", via=via, recipe=recipe_id, **_thr_fields(thr), nm=len(members), members=mrecs,
-               pre_ccfg=dict(name=str(ccfg.name), seed=int(ccfg.seed), smin=int(ccfg.seq_len_min), smax=int(ccfg.seq_len_max), filters=[]),
-               c_pre_coll=proj_coll(cmeta))
-    stage, res, msg = "serialize", "ok", ""
+               pre_ccfg=dict(name="coll", seed=cseed, smin=1, smax=512, filters=[]), c_pre_coll=proj_coll(cmeta))
+    # a config copy that is no longer equal to its original makes the collection constructor raise: that is
+    # a failed config round trip, recorded (stage "build") and judged like any other exception
+    stage, res, msg = "build", "ok", ""
     md.set_serialize_minimal_threshold(thr)
     try:
+        mcfgs = [d.cfg if style == "shared" else MazeDatasetConfig.load(d.cfg.serialize()) for d in members]
+        ccfg = MazeDatasetCollectionConfig(name="coll", maze_dataset_configs=mcfgs, seed=cseed)
+        coll = MazeDatasetCollection(ccfg, members, generation_metadata_collected=cmeta)
+        rec["pre_ccfg"] = dict(name=str(ccfg.name), seed=int(ccfg.seed), smin=int(ccfg.seq_len_min), smax=int(ccfg.seq_len_max), filters=[])
+        stage = "serialize"
         if via == "mem":
             ser = coll.serialize()
             fmts = [str(s["__format__"]) for s in ser["maze_datasets"]]
@@ -418,7 +430,7 @@ def coll_round_trip(recipes, via, thr, tmpdir, recipe_id):
     rec.setdefault("ld_ccfg", dict(name="", seed=0, smin=0, smax=0, filters=[]))
     rec.setdefault("ld_mcfgs", [])
     rec.setdefault("c_ld_coll", dict(present=False, m=[]))
-    # flat fields used for known-finding matching / evidence
+    # flat descriptive fields (known-finding matching / evidence); not used for the verdict
     rec["fmts"] = sorted({m["fmt"] for m in mrecs})
     rec["cfg_style"] = style
     want_min = [thr is not None and m["n"] >= thr for m in mrecs]
@@ -441,7 +453,8 @@ def run_job(job):
     tmpdir = tempfile.mkdtemp(prefix="c05_")
     try:
         if "coll" in job:
-            return [coll_round_trip(job["coll"], via, thr, tmpdir, dict(job["rid"], coll=job["coll"])) for via, thr in job["trips"]]
+            out = [coll_round_trip(job["coll"], via, thr, tmpdir, dict(job["rid"], coll=job["coll"])) for via, thr in job["trips"]]
+            return [x for x in out if x is not None]
         recipe = job["recipe"]
         # input construction (not under test): a generator configuration may admit no valid endpoints
         # (e.g. forced dead ends in a hallway, a one-cell percolation component) -> relax, else skip
@@ -453,7 +466,8 @@ def run_job(job):
                 if recipe["kind"] != "gen" or attempt == 2:
                     return []
                 recipe = dict(recipe, ep="free", seed=recipe["seed"] + attempt)
-        return [round_trip(recipe, path, via, thr, tmpdir) for path, via, thr in job["trips"]]
+        out = [round_trip(recipe, path, via, thr, tmpdir) for path, via, thr in job["trips"]]
+        return [x for x in out if x is not None]
     finally:
         shutil.rmtree(tmpdir, ignore_errors=True)
 
@@ -572,7 +586,7 @@ def _accepted_copy(rec):
     loaded config := the expected config, ...): every canary corrupts exactly one thing of such a copy, so the
     canaries do not depend on the code under test having behaved correctly in this run"""
     c = json.loads(json.dumps(rec))
-    fmt = c["fmt"] or {"full": "MazeDataset", "minimal": "MazeDataset:minimal", "cat": "MazeDataset:minimal_soln_cat"}.get(c["path"], "MazeDataset")
+    fmt = {"full": "MazeDataset", "minimal": "MazeDataset:minimal", "cat": "MazeDataset:minimal_soln_cat"}.get(c["path"], "MazeDataset")
     c.update(res="ok", stage="", msg="", fmt=fmt, lib_cfg_eq=True)
     c["ld"] = json.loads(json.dumps(c["o"]))
     c["ld_cfg"] = json.loads(json.dumps(c["pre_cfg"]))
@@ -709,6 +723,9 @@ def main(chk: lib.Check) -> int:
     rb = lib.tlc_expect_violation("Formats", "Formats_broken_pad.cfg", "RoundTrip", tag="bp")
     rc = lib.tlc_expect_violation("Formats", "Formats_broken_cat.cfg", "RoundTrip", tag="bc")
     chk.notes["broken_variants_rejected"] = {"soln[:len-1]": rb.violated, "split at lengths (not running sums)": rc.violated}
+    if thorough:
+        rh = lib.tlc_design("Formats", "Formats_benign.cfg", tag="h")
+        chk.add_model("Formats/benign-variant", rh, "split at ALL running sums (extra empty piece dropped by zip): RoundTrip still holds")
 
     # ---- (C) real round trips
     # metadata mode "none" (no per-maze and no collected metadata) x minimal family raises on this tree
@@ -757,7 +774,7 @@ def main(chk: lib.Check) -> int:
     classes = {}
     for clause, rp in chk.violations:
         c = json.load(open(rp))["case"]
-        key = (clause, c["kind"], c.get("res"), c.get("stage") if c.get("stage") in ("load", "read", "inspect") else "serialize/save", c.get("msg", "")[:60],
+        key = (clause, c["kind"], c.get("res"), c.get("stage") if c.get("stage") in ("build", "load", "read", "inspect") else "serialize/save", c.get("msg", "")[:60],
                f'has_meta={c.get("has_meta")} collected={c.get("collected")} minimal_requested={c.get("minimal_requested")}' if c["kind"] == "ds"
                else f'cfg_style={c.get("cfg_style")} uncollected_minimal={c.get("members_uncollected_minimal")} no_metadata_minimal={c.get("members_without_metadata_minimal")}')
         classes.setdefault(key, []).append(rp)
@@ -801,6 +818,9 @@ def replay(path: str) -> int:
             rec = round_trip(case["recipe"], case["path"], case["via"], thr, tmpdir)
     finally:
         shutil.rmtree(tmpdir, ignore_errors=True)
+    if rec is None:
+        print("replay: the input of this case can no longer be constructed")
+        return 2
     rec["id"] = 0
     out = lib.oracle("Trace_Formats", [rec], tag="rp")
     print("replay:", json.dumps(slim(rec), default=str)[:600], "verdict:", out.verdicts.get(0, []))
